@@ -552,6 +552,9 @@ impl NamedFile {
                 if let Some(range) = HttpRange::parse(ranges_header, length)
                     .ok()
                     .and_then(|ranges| ranges.first().copied())
+                    // a range that selects no bytes (a suffix range on an empty file) is not
+                    // satisfiable; `offset + length - 1` below would underflow
+                    .filter(|range| range.length > 0)
                 {
                     ranged_req = true;
                     length = range.length;
